@@ -134,7 +134,11 @@ class ScriptedAdapter(ScriptAdapter):
 
     def check_jobs(self, joblist):
         WORLD.queried = list(joblist)
-        WORLD.emit(("check", tuple(sorted(WORLD.job_owner[j] for j in joblist)),
+        # a job this scheduler never handed out (the id comes from somewhere else, e.g. an earlier run's
+        # leftovers): the call is recorded, the scheduler knows nothing about the job
+        foreign = [j for j in joblist if j not in WORLD.job_owner]
+        joblist = [j for j in joblist if j in WORLD.job_owner]
+        WORLD.emit(("check", tuple(sorted([WORLD.job_owner[j] for j in joblist] + ["?job:%s" % j for j in foreign])),
                     tuple(sorted(int(j) for j in joblist))))
         # the scenario's code is the outcome of the first query of the poll; should the graph ask again
         # within the same poll, the scheduler is up again (a transient failure)
@@ -173,7 +177,7 @@ class ScriptedAdapter(ScriptAdapter):
         return code, status
 
     def cancel_jobs(self, joblist):
-        WORLD.emit(("cancel", tuple(sorted(WORLD.job_owner[j] for j in joblist)),
+        WORLD.emit(("cancel", tuple(sorted(WORLD.job_owner.get(j, "?job:%s" % j) for j in joblist)),
                     tuple(sorted(int(j) for j in joblist))))
         code = getattr(CancelCode, WORLD.cancel_code)
         return CancellationRecord(code, 0 if code == CancelCode.OK else 1)
